@@ -145,7 +145,7 @@ def main(run):
     drv = vlib.build_driver("h_persist", ["h_persist.c"], wraps=WRAPS)
     global PORT
     PORT = free_udp_port()
-    scratch_root = os.path.join(vlib.BUILD, "persist-scratch")
+    scratch_root = os.path.join(vlib.BUILD, "persist-scratch-%d" % os.getpid())
     shutil.rmtree(scratch_root, ignore_errors=True)
     lay_out, _ = run_driver(drv, ["layout %d" % PORT], os.path.join(scratch_root, "layout"))
     layout = g.Layout(lay_out[0])
